@@ -219,8 +219,11 @@ var vfEonRows []database.Eon
 
 //verif:stub (*github.com/shutter-network/rolling-shutter/rolling-shutter/keyper/database.Queries).InsertEonPublicKey sql=insertEonPublicKey
 func vfStubInsertEonPK(q *database.Queries, ctx context.Context, arg database.InsertEonPublicKeyParams) error {
+	vfEonKeys = append(vfEonKeys, arg)
 	return nil
 }
+
+var vfEonKeys []database.InsertEonPublicKeyParams // rows queued for publication (outgoing eon keys)
 
 //verif:stub (*github.com/shutter-network/rolling-shutter/rolling-shutter/keyper/database.Queries).InsertDKGResult sql=insertDKGResult
 func vfStubInsertResult(q *database.Queries, ctx context.Context, arg database.InsertDKGResultParams) error {
@@ -364,4 +367,31 @@ func H_C08_reload_equals_memory() {
 	vfAssume(h >= 0 && h < 1<<40)
 	vfAssert(st2.phaseLength.GetPhaseAtHeight(h, b.startHeight) == st.phaseLength.GetPhaseAtHeight(h, a.startHeight), "same-phase-at-every-later-height")
 	vfReach("reloaded")
+}
+
+
+// C20 (first hop): when the key generation of an eon finishes successfully, finalizeDKG queues
+// the eon public key for publication exactly once, under the eon's number; a failed key generation
+// queues nothing. (The second hop, from that table to broadcast or callback, is H_C20_publish_all.)
+func H_C20_finalize_queues_key() {
+	ks := vfKeypers(vfParam("keypers", 2))
+	eon := vfU64("eon")
+	vfAssume(eon < 1<<62)
+	st := vfState(ks[0], eon, ks, puredkg.Apologizing)
+	dkg := st.dkg[eon]
+	vfPh.scheduled, vfPh.commitMsgs, vfPh.polyEvals, vfPh.deleted, vfPh.results = nil, nil, 0, nil, nil
+	vfPh.starts = [4]int{}
+	vfPh.computeOK = vfBool("dkg-succeeds")
+	vfEonKeys, vfEonRows = nil, nil
+	err := st.finalizeDKG(context.Background(), nil, eon, dkg)
+	vfAssert(err == nil, "finalisation-succeeds")
+	if vfPh.computeOK {
+		vfAssert(len(vfEonKeys) == 1 && vfEonKeys[0].Eon == int64(eon) && string(vfEonKeys[0].EonPublicKey) == "eonpk", "successful-key-generation-queues-its-eon-public-key-exactly-once")
+		vfReach("queued")
+	} else {
+		vfAssert(len(vfEonKeys) == 0, "failed-key-generation-queues-no-key")
+		vfReach("nothing-queued")
+	}
+	vfAssert(len(vfPh.results) == 1 && vfPh.results[0] == int64(eon), "result-recorded-for-the-eon")
+	vfAssert(len(vfPh.scheduled) == 1, "result-reported-to-shuttermint-once")
 }
